@@ -706,15 +706,36 @@ namespace vf_coll
             }
             // the documented requirement on the block size is only "max_node_size < block_size / number of pools": now and then a block
             // that just meets it (log2 buckets with a large maximum: the list array still fits into the first block)
+            // (the constructor itself rejects, with bad_node_size, a block whose share per list - after alignment and fences - is below
+            //  the maximum node size: then the ordinary block size is used)
+            std::size_t roomy = bs0;
+            bool        tight = false;
             if (!identity && maxn >= 100 && r.chance(12))
             {
-                bs0 = 9 * (maxn + 1) + r.below(300) + (maxn > 128 ? 0 : 600);
-                if (bs0 <= Src::max_block)
-                    flag("tight-block");
+                auto cand = 9 * (maxn + 1) + r.below(300) + (maxn > 128 ? 0 : 600);
+                if (cand <= Src::max_block)
+                {
+                    bs0   = cand;
+                    tight = true;
+                }
             }
             pl                = placement(r.below(3));
             op("setup %s max_node=%zu bs=%zu placement=%s", member ? "member" : "traits", maxn, bs0, placement_name(pl));
-            units.push_back(fresh(pl));
+            try
+            {
+                units.push_back(fresh(pl));
+                if (tight)
+                    flag("tight-block");
+            }
+            catch (bad_node_size&)
+            {
+                if (!tight)
+                    throw;
+                op("the constructor refused the tight block: bs=%zu", roomy);
+                count("tight_block_refused_by_constructor");
+                bs0 = roomy;
+                units.push_back(fresh(pl));
+            }
             flag(placement_name(pl));
         }
 
